@@ -27,9 +27,10 @@ Init == hid \in Histories /\ ia = Fresh /\ ib = Fresh /\ sched = <<>>
 StepOf(x, h) ==
     LET step == h[x.done + 1] IN
     IF IsAdmin(step.call)
-    THEN LET r == AdminCall(x.codes, x.block, step.call) IN
-         [x EXCEPT !.codes = r.codes, !.block = r.block, !.done = @ + 1,
-                   !.obs = Append(@, [ok |-> r.ok, val |-> r.val, resps |-> <<>>, root |-> x.root, codes |-> r.codes])]
+    THEN LET r == AdminCall(x.codes, x.block, step.call)
+             nr == AfterAdmin(x.root, step.call, r.block) IN
+         [x EXCEPT !.codes = r.codes, !.block = r.block, !.done = @ + 1, !.root = nr,
+                   !.obs = Append(@, [ok |-> r.ok, val |-> r.val, resps |-> <<>>, root |-> nr, codes |-> r.codes])]
     ELSE LET r == RunTx(x.root, x.codes, x.block, step.call, step.sc) IN
          [x EXCEPT !.root = r.post, !.done = @ + 1,
                    !.obs = Append(@, [ok |-> r.ok, val |-> 0, resps |-> r.resps, root |-> r.post, codes |-> x.codes])]
